@@ -119,11 +119,33 @@ def run_order(job, order):
         seen.append(mod.fullName())
         return orig(mod)
     system.processModule = pm
+    # when a star import finished copying names / when an object was moved (for the classification of the known
+    # star-import variant of the stale name: did the star import run before the move?)
+    events = []
+    from pydoctor import astbuilder
+    orig_all = astbuilder.ModuleVistor._importAll
+    orig_rep = model.Documentable.reparent
+
+    def import_all(self, modname):
+        try:
+            return orig_all(self, modname)
+        finally:
+            events.append(['star-done', self.builder.current.fullName(), modname])
+
+    def reparent(self, new_parent, new_name):
+        events.append(['move', '%s.%s' % (new_parent.fullName(), new_name)])
+        return orig_rep(self, new_parent, new_name)
+    astbuilder.ModuleVistor._importAll = import_all
+    model.Documentable.reparent = reparent
     try:
-        builder.buildModules()
+        try:
+            builder.buildModules()
+        finally:
+            astbuilder.ModuleVistor._importAll = orig_all
+            model.Documentable.reparent = orig_rep
         objects, scopes = obj_dump(system)
         res = {'objects': objects, 'scopes': scopes, 'answers': answers(system, job.get('queries', [])),
-               'order_seen': seen}
+               'order_seen': seen, 'events': events}
         if job.get('docstring_links'):
             res['doclinks'] = doclinks(system)
         return res
